@@ -549,6 +549,21 @@ func scenXfer(r *Run) {
 			o.Link.LossPM = 50 + t.Choose(cs, 250)
 		}
 	}
+	var wrapX, wrapY, wrapF uint32
+	if r.Spec.Stratum == "wrap" {
+		// C12 at session level: both cores start at shifted sequence numbers, the
+		// core clock at a shifted offset and the FEC encoders near their wrap value;
+		// the transfer must complete with the stream intact
+		const ws = "wrap"
+		t := r.S.Tape
+		r.S.Alias = map[string]string{"C01": "C12", "C09": "C12"}
+		o.Listen = false
+		segs := int(o.BytesAB+o.BytesBA)/200 + 50
+		wrapX, wrapY = nearBoundary(t, ws, segs), nearBoundary(t, ws, segs)
+		o.World.ClockOffset = time.Duration(nearBoundary(t, ws, 5000+t.Skewed(ws, 0, 60000))) * time.Millisecond
+		wrapF = uint32(1 + t.Choose(ws, 40)) // groups before the FEC id wrap
+		o.MaxVirtual = 20 * time.Minute
+	}
 	if strings.HasPrefix(r.Spec.Stratum, "fec") {
 		// C07 at session level: FEC on at both ends with the same ratio, loss, and
 		// parity-aware targeted loss; the stream oracle decides
@@ -564,6 +579,21 @@ func scenXfer(r *Run) {
 		}
 	}
 	x := NewXfer(r, o)
+	if r.Spec.Stratum == "wrap" {
+		// runs before the writers' first Write (those are events of their own)
+		a, b := x.A, x.B
+		a.Sess.VerifWithLock(func(k *kcp.KCP) { k.VerifSetSeq(wrapX, wrapY) })
+		b.Sess.VerifWithLock(func(k *kcp.KCP) { k.VerifSetSeq(wrapY, wrapX) })
+		a.Out.ISN, b.Out.ISN = wrapX, wrapY
+		for _, ep := range []*Endpoint{a, b} {
+			fc := x.W.connFEC[ep.Conn.id]
+			if n := uint32(fc[0] + fc[1]); fc[0] > 0 {
+				paws := uint32(0xffffffff) / n * n
+				ep.Sess.VerifSetFECNext(paws - n*wrapF)
+			}
+		}
+		r.S.L.Logf("wrap: snA=%d snB=%d clock=%v fec=%d groups before the wrap", wrapX, wrapY, o.World.ClockOffset, wrapF)
+	}
 	if r.Spec.Stratum == "fec-noparity" || r.Spec.Stratum == "fec-completing" {
 		mode := r.Spec.Stratum
 		w := x.W
